@@ -83,25 +83,26 @@ pub fn gen(r: &mut Rng, cases: usize, size: usize, out: &mut Out) {
             out.line(&format!("ssoak {} {}", r.below(1 << 30), enc));
             continue;
         }
-        out.line("snew");
+        let mut lines: Vec<String> = Vec::new();
+        lines.push("snew".to_string());
         let mode = r.below(3);
         match mode {
             0 => {
                 // lockstep: after every operation deliver message by message, poll around each cut
                 for o in &prog {
-                    out.line(&format!("screate {o}"));
+                    lines.push(format!("screate {o}"));
                     let rounds = r.range(0, 4);
                     for _ in 0..rounds {
-                        out.line("sdeliver 1");
+                        lines.push("sdeliver 1".to_string());
                         if r.chance(3, 4) {
-                            out.line(&format!("srelaypoll {}", if r.bool() { "+0".to_string() } else { target(r) }));
+                            lines.push(format!("srelaypoll {}", if r.bool() { "+0".to_string() } else { target(r) }));
                         }
                         if r.chance(3, 4) {
-                            out.line("spoll +1"); // not there yet
-                            out.line("spoll +0");
+                            lines.push("spoll +1".to_string()); // not there yet
+                            lines.push("spoll +0".to_string());
                         }
                         if r.chance(1, 3) {
-                            out.line(&format!("spoll {}", target(r)));
+                            lines.push(format!("spoll {}", target(r)));
                         }
                     }
                 }
@@ -112,16 +113,16 @@ pub fn gen(r: &mut Rng, cases: usize, size: usize, out: &mut Out) {
                 while i < prog.len() {
                     match r.below(10) {
                         0..=3 => {
-                            out.line(&format!("screate {}", prog[i]));
+                            lines.push(format!("screate {}", prog[i]));
                             i += 1;
                         }
-                        4 | 5 => out.line(&format!("sdeliver {}", r.usize(4))),
-                        6 | 7 => out.line(&format!("srelaypoll {}", target(r))),
-                        8 => out.line(&format!("spoll {}", target(r))),
+                        4 | 5 => lines.push(format!("sdeliver {}", r.usize(4))),
+                        6 | 7 => lines.push(format!("srelaypoll {}", target(r))),
+                        8 => lines.push(format!("spoll {}", target(r))),
                         _ => match r.below(3) {
-                            0 => out.line("sjoin"),
-                            1 => out.line(&format!("sprodpoll {}", target(r))),
-                            _ => out.line("sdump"),
+                            0 => lines.push("sjoin".to_string()),
+                            1 => lines.push(format!("sprodpoll {}", target(r))),
+                            _ => lines.push("sdump".to_string()),
                         },
                     }
                 }
@@ -129,24 +130,38 @@ pub fn gen(r: &mut Rng, cases: usize, size: usize, out: &mut Out) {
             _ => {
                 // burst: the whole program, then cut the stream into random chunks
                 for o in &prog {
-                    out.line(&format!("screate {o}"));
+                    lines.push(format!("screate {o}"));
                 }
                 for _ in 0..r.range(2, 12) {
-                    out.line(&format!("sdeliver {}", r.range(0, 3)));
-                    out.line(&format!("srelaypoll {}", target(r)));
-                    out.line(&format!("spoll {}", target(r)));
+                    lines.push(format!("sdeliver {}", r.range(0, 3)));
+                    lines.push(format!("srelaypoll {}", target(r)));
+                    lines.push(format!("spoll {}", target(r)));
                 }
             }
         }
-        out.line("sjoin");
+        lines.push("sjoin".to_string());
         if r.chance(1, 2) {
-            out.line("sdump"); // usually not drained yet
+            lines.push("sdump".to_string()); // usually not drained yet
         }
         // drain: everything pending, relay and receiver ask for a handle that never comes
-        out.line("sdeliver 1000000");
-        out.line("srelaypoll 18446744073709551615");
-        out.line("spoll 18446744073709551615");
-        out.line("sdump");
+        lines.push("sdeliver 1000000".to_string());
+        lines.push("srelaypoll 18446744073709551615".to_string());
+        lines.push("spoll 18446744073709551615".to_string());
+        lines.push("sdump".to_string());
+        // every 5th scheduled case the final receiver goes away in mid-stream (its store and with it
+        // the channel end are dropped): the relay must keep mirroring; later receiver polls become relay polls
+        if r.chance(1, 5) && lines.len() > 4 {
+            let at = r.range(1, lines.len() - 3);
+            for l in lines.iter_mut().skip(at) {
+                if let Some(rest) = l.strip_prefix("spoll ") {
+                    *l = format!("srelaypoll {rest}");
+                }
+            }
+            lines.insert(at, "sdroprecv".to_string());
+        }
+        for l in &lines {
+            out.line(l);
+        }
     }
 }
 
@@ -259,6 +274,8 @@ mod imp {
         recv: Bdd,
         hist: Vec<String>,
         bad: bool,
+        /// the final receiver was dropped (`sdroprecv`)
+        recv_gone: bool,
     }
 
     impl Sess {
@@ -284,6 +301,7 @@ mod imp {
                 recv: Bdd::with_receiver(r2rx),
                 hist: vec!["0".into(), "1".into()],
                 bad: false,
+                recv_gone: false,
             }
         }
 
@@ -412,7 +430,7 @@ mod imp {
                     soak(ws[1].parse().unwrap_or(0), ws[2], out);
                     true
                 }
-                "screate" | "sdeliver" | "srelaypoll" | "spoll" | "sprodpoll" | "sjoin" | "sdump" => {
+                "screate" | "sdeliver" | "srelaypoll" | "spoll" | "sprodpoll" | "sjoin" | "sdump" | "sdroprecv" => {
                     out.line(l);
                     out.flush();
                     let Some(s) = self.s.as_mut() else {
@@ -428,6 +446,15 @@ mod imp {
                             } else {
                                 s.finish(Reply::Panic);
                             }
+                        }
+                        "sdroprecv" => {
+                            // the receiving store, and with it its end of the channel, is dropped
+                            s.recv = Bdd::new();
+                            s.recv_gone = true;
+                        }
+                        "spoll" if s.recv_gone => {
+                            out.line("= bad-request");
+                            out.line("~ bad-request");
                         }
                         "sdeliver" if ws.len() == 2 => match ws[1].parse::<usize>() {
                             Ok(k) => {
@@ -517,14 +544,14 @@ mod imp {
                                     "= P {} R {} V {}",
                                     table(&p),
                                     dump_nodes(&s.relay),
-                                    dump_nodes(&s.recv)
+                                    if s.recv_gone { "gone".to_string() } else { dump_nodes(&s.recv) }
                                 ));
-                                let drained = s.pending.is_empty() && s.r1tx.is_empty() && s.r2probe.is_empty();
+                                let drained = s.pending.is_empty() && s.r1tx.is_empty() && (s.recv_gone || s.r2probe.is_empty());
                                 out.line(&format!(
                                     "~ drained={} relayeq={} recveq={}",
                                     drained as u8,
                                     (s.relay.nodes == p) as u8,
-                                    (s.recv.nodes == p) as u8
+                                    if s.recv_gone { "-".to_string() } else { ((s.recv.nodes == p) as u8).to_string() }
                                 ));
                                 out.line(&format!(
                                     "# case stream nodes={} msgs={} ops={} relay={} recv={}",
